@@ -311,6 +311,25 @@ func xbinExec(ctx *Ctx, w []string) {
 			b := unhx(w[1])
 			n, d, err := xbinary.UnmarshalBytes(b, false)
 			monCount("C16 in-bounds")
+			// the copying variant and the string variants decode the same bytes: they must be total on the same
+			// inputs (also on the ones that are rejected), agree on error / consumed length, and never panic
+			for _, variant := range []string{"bytes-copy", "string", "string-copy"} {
+				res := guard(func() string {
+					var vn int
+					var verr error
+					switch variant {
+					case "bytes-copy":
+						vn, _, verr = xbinary.UnmarshalBytes(b, true)
+					case "string":
+						vn, _, verr = xbinary.UnmarshalString(b, false)
+					case "string-copy":
+						vn, _, verr = xbinary.UnmarshalString(b, true)
+					}
+					return fmt.Sprintf("%d %v", vn, verr != nil)
+				})
+				want := fmt.Sprintf("%d %v", n, err != nil)
+				ctx.mon("C16-variants-total", res == want, fmt.Sprintf("Unmarshal %s variant on %s: (consumed, failed) = %s, the plain bytes variant gives %s", variant, w[1], res, want))
+			}
 			if err != nil {
 				ctx.mon("C16-err-consumes-zero", n == 0, fmt.Sprintf("UnmarshalBytes(%s) err n=%d", w[1], n))
 				return fmt.Sprintf("err %d", n)
